@@ -3,6 +3,7 @@ package main
 import (
 	"bytes"
 	"context"
+	"errors"
 	"fmt"
 	"io"
 	"net/url"
@@ -13,12 +14,14 @@ import (
 	"time"
 
 	webdav "github.com/emersion/go-webdav"
+	"github.com/emersion/go-webdav/internal"
 )
 
 // C05: WebDAV client and server agree on names, metadata and content
 
 // a synthetic in-memory FileSystem that holds arbitrary metadata and records every call
 type memFS struct {
+	fail    error // every call fails with it
 	files   map[string]*webdav.FileInfo
 	content map[string][]byte
 	log     []string
@@ -28,10 +31,15 @@ func newMemFS() *memFS {
 	return &memFS{files: map[string]*webdav.FileInfo{"/": {Path: "/", IsDir: true}}, content: map[string][]byte{}}
 }
 
-func (m *memFS) rec(format string, a ...interface{}) { m.log = append(m.log, fmt.Sprintf(format, a...)) }
+func (m *memFS) rec(format string, a ...interface{}) {
+	m.log = append(m.log, fmt.Sprintf(format, a...))
+}
 
 func (m *memFS) Open(ctx context.Context, name string) (io.ReadCloser, error) {
 	m.rec("Open %s", hx(name))
+	if m.fail != nil {
+		return nil, m.fail
+	}
 	c, ok := m.content[name]
 	if !ok {
 		return nil, webdav.NewHTTPError(404, fmt.Errorf("not found"))
@@ -41,6 +49,9 @@ func (m *memFS) Open(ctx context.Context, name string) (io.ReadCloser, error) {
 }
 func (m *memFS) Stat(ctx context.Context, name string) (*webdav.FileInfo, error) {
 	m.rec("Stat %s", hx(name))
+	if m.fail != nil {
+		return nil, m.fail
+	}
 	fi, ok := m.files[name]
 	if !ok {
 		return nil, webdav.NewHTTPError(404, fmt.Errorf("not found"))
@@ -49,6 +60,9 @@ func (m *memFS) Stat(ctx context.Context, name string) (*webdav.FileInfo, error)
 }
 func (m *memFS) ReadDir(ctx context.Context, name string, recursive bool) ([]webdav.FileInfo, error) {
 	m.rec("ReadDir %s %s", hx(name), b01(recursive))
+	if m.fail != nil {
+		return nil, m.fail
+	}
 	dir := strings.TrimSuffix(name, "/")
 	var keys []string
 	for k := range m.files {
@@ -75,6 +89,9 @@ func (m *memFS) ReadDir(ctx context.Context, name string, recursive bool) ([]web
 func (m *memFS) Create(ctx context.Context, name string, body io.ReadCloser, opts *webdav.CreateOptions) (*webdav.FileInfo, bool, error) {
 	b, err := io.ReadAll(body)
 	m.rec("Create %s %s %s %s", hx(name), hx(string(b)), hx(string(opts.IfMatch)), hx(string(opts.IfNoneMatch)))
+	if m.fail != nil {
+		return nil, false, m.fail
+	}
 	if err != nil {
 		return nil, false, err
 	}
@@ -85,18 +102,30 @@ func (m *memFS) Create(ctx context.Context, name string, body io.ReadCloser, opt
 }
 func (m *memFS) RemoveAll(ctx context.Context, name string, opts *webdav.RemoveAllOptions) error {
 	m.rec("RemoveAll %s", hx(name))
+	if m.fail != nil {
+		return m.fail
+	}
 	return nil
 }
 func (m *memFS) Mkdir(ctx context.Context, name string) error {
 	m.rec("Mkdir %s", hx(name))
+	if m.fail != nil {
+		return m.fail
+	}
 	return nil
 }
 func (m *memFS) Copy(ctx context.Context, name, dest string, options *webdav.CopyOptions) (bool, error) {
 	m.rec("Copy %s %s %s %s", hx(name), hx(dest), b01(options.NoRecursive), b01(options.NoOverwrite))
+	if m.fail != nil {
+		return false, m.fail
+	}
 	return true, nil
 }
 func (m *memFS) Move(ctx context.Context, name, dest string, options *webdav.MoveOptions) (bool, error) {
 	m.rec("Move %s %s %s", hx(name), hx(dest), b01(options.NoOverwrite))
+	if m.fail != nil {
+		return false, m.fail
+	}
 	return true, nil
 }
 
@@ -392,7 +421,62 @@ func emitDavLocal(o *Out, r *RNG) {
 	}
 }
 
+// a failing FileSystem: the client's error carries the status the backend chose
+func emitDavFail(o *Out) {
+	ctx := context.Background()
+	kinds := map[string]error{"http403": webdav.NewHTTPError(403, fmt.Errorf("no")), "http404": webdav.NewHTTPError(404, fmt.Errorf("no")),
+		"http423": webdav.NewHTTPError(423, fmt.Errorf("no")), "http507": webdav.NewHTTPError(507, fmt.Errorf("no")),
+		"exist": os.ErrExist, "plain": fmt.Errorf("backend exploded")}
+	ops := map[string]func(c *webdav.Client) error{
+		"stat":      func(c *webdav.Client) error { _, err := c.Stat(ctx, "/x"); return err },
+		"readdir":   func(c *webdav.Client) error { _, err := c.ReadDir(ctx, "/", false); return err },
+		"open":      func(c *webdav.Client) error { _, err := c.Open(ctx, "/x"); return err },
+		"removeall": func(c *webdav.Client) error { return c.RemoveAll(ctx, "/x") },
+		"mkdir":     func(c *webdav.Client) error { return c.Mkdir(ctx, "/x") },
+		"copy":      func(c *webdav.Client) error { return c.Copy(ctx, "/x", "/y", nil) },
+		"move":      func(c *webdav.Client) error { return c.Move(ctx, "/x", "/y", nil) },
+		"create": func(c *webdav.Client) error {
+			w, err := c.Create(ctx, "/x")
+			if err != nil {
+				return err
+			}
+			w.Write([]byte("data"))
+			return w.Close()
+		},
+	}
+	var kn, on []string
+	for k := range kinds {
+		kn = append(kn, k)
+	}
+	for k := range ops {
+		on = append(on, k)
+	}
+	sort.Strings(kn)
+	sort.Strings(on)
+	for _, k := range kn {
+		for _, op := range on {
+			m := newMemFS()
+			m.fail = kinds[k]
+			hc := &handlerClient{h: &webdav.Handler{FileSystem: m}}
+			res := guard(func() string {
+				c, _ := webdav.NewClient(hc, "http://example.com/")
+				err := ops[op](c)
+				if err == nil {
+					return "ok"
+				}
+				var he *internal.HTTPError
+				if errors.As(err, &he) {
+					return itoa(he.Code)
+				}
+				return "plain"
+			})
+			o.Emit("dav.fail", op+" "+k, res)
+		}
+	}
+}
+
 func famDavWire(o *Out, r *RNG, thorough bool) {
+	emitDavFail(o)
 	n := 200
 	if thorough {
 		n = 4000
